@@ -118,7 +118,44 @@ type chk struct {
 
 func (c *chk) ev(n int64) { atomic.AddInt64(&c.evals, n) }
 
+
+// keep snapshots the integer arguments of a library call (and the key's own numbers); the returned function
+// reports an argument the call has changed (and counts results that are one of the argument objects).
+func (c *chk) keep(op, site string, k *key, args ...*big.Int) func(results ...*big.Int) {
+	all := append([]*big.Int{}, args...)
+	if k != nil && k.sk != nil {
+		all = append(all, k.sk.N, k.sk.P, k.sk.Q, k.sk.LambdaN, k.sk.PhiN)
+	}
+	snap := make([]*big.Int, len(all))
+	for i, a := range all {
+		if a != nil {
+			snap[i] = new(big.Int).Set(a)
+		}
+	}
+	return func(results ...*big.Int) {
+		for i, a := range all {
+			if a != nil && a.Cmp(snap[i]) != 0 {
+				what := fmt.Sprintf("argument %d", i)
+				if i >= len(args) {
+					what = "a number of the key"
+				}
+				c.r.Violate("purity/"+op+"/argument-modified", op+" changed "+what+" of its caller ("+site+")", map[string]string{"before": snap[i].String(), "after": a.String()})
+			}
+		}
+		for _, o := range results {
+			for i, a := range args {
+				if o != nil && o == a {
+					c.r.Count("result_is_an_argument_object/"+op, 1) // harmless by itself; recorded
+					_ = i
+				}
+			}
+		}
+	}
+}
+
 func (c *chk) encR(k *key, rd io.Reader, m *big.Int, site string) (ct, x *big.Int, err error, ok bool) {
+	done := c.keep("EncryptAndReturnRandomness", site, k, m)
+	defer func() { done(ct, x) }()
 	if p := try(func() { ct, x, err = k.sk.PublicKey.EncryptAndReturnRandomness(rd, m) }); p != "" {
 		c.r.Violate("encrypt/"+site+"/"+k.class+":panic", "EncryptAndReturnRandomness panicked: "+p, rec(k, "m", m))
 		return nil, nil, nil, false
@@ -127,6 +164,8 @@ func (c *chk) encR(k *key, rd io.Reader, m *big.Int, site string) (ct, x *big.In
 }
 
 func (c *chk) enc(k *key, rd io.Reader, m *big.Int, site string) (ct *big.Int, err error, ok bool) {
+	done := c.keep("Encrypt", site, k, m)
+	defer func() { done(ct) }()
 	if p := try(func() { ct, err = k.sk.PublicKey.Encrypt(rd, m) }); p != "" {
 		c.r.Violate("encrypt/"+site+"/"+k.class+":panic", "Encrypt panicked: "+p, rec(k, "m", m))
 		return nil, nil, false
@@ -135,6 +174,8 @@ func (c *chk) enc(k *key, rd io.Reader, m *big.Int, site string) (ct *big.Int, e
 }
 
 func (c *chk) dec(k *key, ct *big.Int, site string) (m *big.Int, err error, ok bool) {
+	done := c.keep("Decrypt", site, k, ct)
+	defer func() { done(m) }()
 	if p := try(func() { m, err = k.sk.Decrypt(ct) }); p != "" {
 		c.r.Violate("decrypt/"+site+"/"+k.class+":panic", "Decrypt panicked: "+p, rec(k, "c", ct))
 		return nil, nil, false
@@ -143,6 +184,8 @@ func (c *chk) dec(k *key, ct *big.Int, site string) (m *big.Int, err error, ok b
 }
 
 func (c *chk) add(k *key, c1, c2 *big.Int, site string) (o *big.Int, err error, ok bool) {
+	done := c.keep("HomoAdd", site, k, c1, c2)
+	defer func() { done(o) }()
 	if p := try(func() { o, err = k.sk.PublicKey.HomoAdd(c1, c2) }); p != "" {
 		c.r.Violate("homoadd/"+site+"/"+k.class+":panic", "HomoAdd panicked: "+p, rec(k, "c1", c1, "c2", c2))
 		return nil, nil, false
@@ -151,6 +194,8 @@ func (c *chk) add(k *key, c1, c2 *big.Int, site string) (o *big.Int, err error, 
 }
 
 func (c *chk) mul(k *key, m, c1 *big.Int, site string) (o *big.Int, err error, ok bool) {
+	done := c.keep("HomoMult", site, k, m, c1)
+	defer func() { done(o) }()
 	if p := try(func() { o, err = k.sk.PublicKey.HomoMult(m, c1) }); p != "" {
 		c.r.Violate("homomult/"+site+"/"+k.class+":panic", "HomoMult panicked: "+p, rec(k, "m", m, "c1", c1))
 		return nil, nil, false
